@@ -358,6 +358,18 @@ impl Elem for i32 {
         x.round() as i32
     }
 }
+impl Elem for i16 {
+    const NAME: &'static str = "i16";
+    fn from64(x: f64) -> Self {
+        x.round() as i16
+    }
+}
+impl Elem for i8 {
+    const NAME: &'static str = "i8";
+    fn from64(x: f64) -> Self {
+        x.round() as i8
+    }
+}
 impl Elem for usize {
     const NAME: &'static str = "usize";
     fn from64(x: f64) -> Self {
@@ -370,11 +382,20 @@ fn c13_one<T: Elem>(out: &mut Out, rng: &mut Sm) {
     let m = rng.range(2, 16) as usize;
     let n = pick_n(rng, 2, out.thorough());
     let p = rng.range(1, 8) as usize;
-    let int = T::NAME == "i32" || T::NAME == "usize";
+    let int = matches!(T::NAME, "i32" | "usize" | "i16" | "i8");
+    // integer states are not confined to small values: magnitudes whose *square* does not fit the element type any
+    // more (i8 >= 12, i16 >= 182, i32 >= 46341, usize >= 2^32) are as legitimate as small ones
+    let big: f64 = match T::NAME {
+        "i32" => 1e8,
+        "usize" => 1e12,
+        "i16" => 3000.0,
+        "i8" => 12.0,
+        _ => 0.0,
+    };
     let cols: Vec<Vec<Vec<f64>>> = (0..p)
         .map(|_| {
             let k = *rng.pick(&[Kind::Iid, Kind::Ar1, Kind::Sticky, Kind::Sticky, Kind::Apart, Kind::Trend]);
-            let scale = if int { rng.uniform(2.0, 50.0) } else if rng.coin(0.25) { rng.log_uniform(1e-6, 1e-3) } else { rng.log_uniform(1e-2, 1e2) };
+            let scale = if int && rng.coin(0.4) { rng.log_uniform(2.0, big) } else if int { rng.uniform(2.0, 50.0f64.min(big)) } else if rng.coin(0.25) { rng.log_uniform(1e-6, 1e-3) } else { rng.log_uniform(1e-2, 1e2) };
             let loc = if int { scale * 4.0 + rng.unit() * 20.0 } else { rng.normal() * scale * 3.0 };
             series(rng, k, m, n + 1, loc, scale)
         })
@@ -490,6 +511,13 @@ pub fn run_c13(out: &mut Out) {
             1 => c13_one::<f64>(out, &mut rng),
             2 => c13_one::<i32>(out, &mut rng),
             _ => c13_one::<usize>(out, &mut rng),
+        }
+    }
+    for i in 0..out.n(40, 600) {
+        if i % 2 == 0 {
+            c13_one::<i16>(out, &mut rng);
+        } else {
+            c13_one::<i8>(out, &mut rng);
         }
     }
     for _ in 0..out.n(60, 1200) {
